@@ -72,6 +72,16 @@ def seam_counters():
         return [0] * 8
 
 
+def _pin(k):
+    """one CPU per worker process. The baton scheduler runs one thread of a process at a time; if its threads sit on different CPUs every hand-over is
+    a cross-CPU wake-up (an inter-processor interrupt, very slow in a VM and ~15x slower still once several such processes run side by side)."""
+    try:
+        cpus = sorted(os.sched_getaffinity(0))
+        os.sched_setaffinity(0, {cpus[k % len(cpus)]})
+    except (AttributeError, OSError):
+        pass
+
+
 def load_known():
     p = os.path.join(VERIF, "known_findings.json")
     if not os.path.exists(p):
@@ -83,6 +93,7 @@ def load_known():
 def _worker_loop(mod, seed, tier, w, nworkers, start, stop_at, max_index, wfd, journal, known_keys, builddir, tmproot):
     """Child process: execute runs start, start+nworkers, ... and stream results to the parent."""
     out = os.fdopen(wfd, "wb", buffering=0)
+    _pin(w)
     ctx = Ctx(journal, known_keys, tier, builddir)
     ctx.stop_at = stop_at
     ctx.tmpdir = os.path.join(tmproot, "w%d" % w)
@@ -232,6 +243,7 @@ def run_isolated(mod, case, known_keys, builddir, tier="quick", cap_s=120.0):
     if pid == 0:
         try:
             os.close(rfd)
+            _pin(os.getpid())
             os.makedirs(tmproot, exist_ok=True)
             os.chdir(tmproot)
             ctx = Ctx(journal, known_keys, tier, builddir)
